@@ -79,6 +79,7 @@ class C02(common.ModelProperty):
         "re-add-after-removal",
         "constructor-with-repeated-entries",
         "universe-member-of-other-universe",
+        "admission-rule-override-rejected-a-vertex",
     ]
 
     def make_config(self, rng):
@@ -93,7 +94,14 @@ class C02(common.ModelProperty):
         cfg["nested_universes"] = rng.random() < 0.75
         cfg["vertex_classes"] = rng.choice([["Vertex"], ["Vertex", "SubVertex"]])
         cfg["universe_classes"] = rng.choice(
-            [["Universe"], ["Universe", "SubUniverse"]]
+            [
+                ["Universe"],
+                ["Universe", "SubUniverse"],
+                ["Universe", "FalsyUniverse"],
+                # a subclass whose add_vertex override calls back into the library
+                ["Universe", "RejectingUniverse"],
+                ["RejectingUniverse", "FalsyUniverse"],
+            ]
         )
         cfg["edge_classes"] = ["DirectedEdge"]
         cfg["multi"] = False
@@ -106,6 +114,15 @@ class C02(common.ModelProperty):
     def execute(self, st, op):
         s = st.stats
         k = op["op"]
+        if k in ("uni_add", "v_add_uni") and op["u"] in st.model.objs and op["v"] in st.model.objs:
+            if st.model.rejects(op["u"], op["v"]):
+                s["probe:admission-rule-override-rejected-a-vertex"] += 1
+                s["fault:reentrant-call-from-subclass-override"] += 1
+        if k == "mk_vertex" and op.get("tag") == 5 and any(
+            st.model.objs.get(u, {}).get("cls") == "RejectingUniverse" for u in op.get("universes") or []
+        ):
+            s["probe:admission-rule-override-rejected-a-vertex"] += 1
+            s["fault:reentrant-call-from-subclass-override"] += 1
         if k in ("uni_add", "v_add_uni"):
             if op["u"] == op["v"]:
                 s["probe:universe-made-member-of-itself"] += 1
